@@ -27,6 +27,7 @@ OBLIGATIONS = {
     "concurrent_calls": "interleavings of two concurrent calls (single-case checks in two threads, cold and after warm-up calls)",
     "long_history": "operations executed in one long history (>= 1000 distinct operations, forward / forward / reverse)",
     "interrupted_calls": "interruption points explored (an earlier call cut short by an asynchronous exception, then ordinary calls)",
+    "degenerate_polymod_state": "a program that drives the checksum polynomial to state 0 / 1 / all-ones before the checksum symbols",
     "history_sequences": "operation sequences (non-initial process states) explored",
     "short_program_2_5": "a v1+ program of 2..5 bytes round-tripped", "all_zero_32": "an all-zero 32-byte program round-tripped",
     "nonalphabet_version_char": "a non-alphabet character in the version position", "data_part_7_chars": "a 7-character data part with valid checksum",
@@ -357,6 +358,18 @@ def run_job(job):
                         acc.check("rt", {"net": net, "v": v, "prog": prog.hex()}, chk_rt)
                         if i % 3000 == 1:
                             acc.sample({"net": net, "v": v, "len": n, "addr": B.encode_segwit(B.HRPS[net], v, prog).decode()})
+        if sh == 0:
+            # programs that drive the checksum polynomial to a degenerate internal state BEFORE the six checksum positions
+            # are absorbed: 0 (what `state or 1` mistakes for "no state"), 1 (the initial value) and the all-ones state
+            from vf.classes import bech32_zero_state
+            for net in NETS:
+                for v, n in ((0, 20), (0, 32), (1, 32), (16, 40), (2, 10)):
+                    for target in (0, 1, (1 << 30) - 1):
+                        for prog in list(bech32_zero_state(B.HRPS[net], v, n, filler(seed, f"c06-zs{n}", 40), target))[:4]:
+                            acc.evaluations += 1
+                            acc.nontrivial += 1
+                            acc.ob("degenerate_polymod_state")
+                            acc.check("rt", {"net": net, "v": v, "prog": prog.hex()}, chk_rt)
         return acc.result()
     seen = set()
     for what, s in gen_strs(job):
